@@ -147,7 +147,18 @@ func (defaultLocker *DefaultLocker) Lock(ctx context.Context, accounts Accounts)
 
 	select {
 	case <-ctx.Done():
-		defaultLocker.intents.RemoveValue(intent)
+		// The intent can be granted concurrently (recheck runs under the mutex): reconcile
+		// under the mutex, either the intent is still queued and is removed, or the accounts
+		// have just been acquired for it and must be given back.
+		defaultLocker.mu.Lock()
+		select {
+		case <-intent.acquired:
+			intent.unlock(ctx, defaultLocker)
+			recheck()
+		default:
+			defaultLocker.intents.RemoveValue(intent)
+		}
+		defaultLocker.mu.Unlock()
 		return nil, errors.Wrapf(ctx.Err(), "locking accounts: %s as read, and %s as write", accounts.Read, accounts.Write)
 	case <-intent.acquired:
 		return releaseIntent, nil
